@@ -108,6 +108,7 @@ func (s *stats) merge(d *world.Digest) {
 type request struct {
 	Oracle string   `json:"oracle"` // frame | diff | baseline | info
 	Seq    []string `json:"seq"`
+	Known  []string `json:"known,omitempty"` // signatures listed as known: must not shadow another finding of the same step
 }
 
 type reply struct {
@@ -603,23 +604,60 @@ func evaluator(c *engine.Check) func(request) reply {
 	}
 }
 
+// collectInfo merges the bookkeeping of every live worker child.
+func collectInfo(ops []string) map[string]any {
+	childMu.Lock()
+	cs := append([]*child{}, children...)
+	childMu.Unlock()
+	sum := func(dst map[string]int, src any) {
+		if m, ok := src.(map[string]any); ok {
+			for k, v := range m {
+				if f, ok := v.(float64); ok {
+					dst[k] += int(f)
+				}
+			}
+		}
+	}
+	skipped, guarded := map[string]int{}, map[string]int{}
+	restores := 0
+	out := map[string]any{}
+	for _, ch := range cs {
+		r, err := ch.eval(request{Oracle: "info"})
+		if err != nil || r.Info == nil {
+			continue
+		}
+		sum(skipped, r.Info["not_walked_types"])
+		sum(guarded, r.Info["mutex_guarded_struct_types_not_compared"])
+		if f, ok := r.Info["restores_verified"].(float64); ok {
+			restores += int(f)
+		}
+		out["package_level_variables_tracked"] = r.Info["package_level_variables_tracked"]
+		out["digest_leaves_of_package_level_state"] = r.Info["digest_leaves_of_package_level_state"]
+	}
+	out["not_walked_types"] = skipped
+	out["mutex_guarded_struct_types_not_compared"] = guarded
+	out["restores_verified"] = restores
+	out["worker_children"] = len(cs)
+	out["worker_children_replaced_after_failed_restore"] = restoreFailures.n
+	out["operations"] = ops
+	return out
+}
+
 var restoreFailures struct {
 	sync.Mutex
 	n    int
 	last string
 }
 
-const none = "-"
-
 func TestCheck(t *testing.T) {
 	c := engine.Start(t, "C20")
 	defer stopChildren()
 	depth := engine.Pick(c, 2, 3)
-	names := []string{none}
+	names := []string{"-"}
 	for _, o := range world.Ops {
 		names = append(names, o.Name)
 	}
-	c.SetRule(fmt.Sprintf("E1 full product: oracle{frame,diff} x every sequence of <=%d operations over an alphabet of %d operations (trailing '-' = shorter sequence), each sequence replayed on a fresh world in a worker process whose package-level state is restored from a pristine snapshot and verified by digest before the sequence; distinct = (oracle/kind of last op, outcome class)", depth, len(world.Ops)))
+	c.SetRule(fmt.Sprintf("E1 full products, one per length 0..%d: oracle{frame,diff} x every sequence of operations over an alphabet of %d operations (a sequence extending a violating sequence is decided by that prefix and not re-executed), each sequence replayed on a fresh world in a worker process whose package-level state is restored from a pristine snapshot and verified by digest before the sequence; distinct = (oracle/kind of last op, outcome class)", depth, len(world.Ops)))
 	c.Assume(
 		"reduction for 'any number of goroutines': a data race on library-owned state needs a write; if no operation of the alphabet writes package-level state, caller-supplied objects or instance fields outside a struct that holds its own mutex, no interleaving of these operations can race on such state (the mutex-guarded remoteKeySet is explored by C13)",
 		"fields of a struct that itself holds a sync.Mutex/RWMutex are assumed to be guarded by it and are not compared (listed under c20_info.mutex_guarded_struct_types_not_compared)",
@@ -649,42 +687,59 @@ func TestCheck(t *testing.T) {
 			}
 		}})
 
-	space := engine.Space{engine.D("oracle", "frame", "diff")}
-	for i := 1; i <= depth; i++ {
-		space = append(space, engine.D(fmt.Sprintf("op%d", i), names...))
-	}
-	seqOf := func(v engine.Vec) []string {
-		var seq []string
-		for i := 1; i < len(v); i++ {
-			if n := names[v[i]]; n != none {
-				seq = append(seq, n)
-			}
+	// One E1 part per sequence length, shortest first. A replay stops at its first
+	// violation, so a sequence that extends an already violating sequence is decided
+	// by that prefix: it is not executed again (counted in pruned_extensions).
+	var vmu sync.Mutex
+	violated := map[string]bool{}
+	key := func(oracle string, seq []string) string { return oracle + "|" + strings.Join(seq, "\x00") }
+	var pruned int64
+	ops := names[1:]
+	for L := 0; L <= depth; L++ {
+		space := engine.Space{engine.D("oracle", "frame", "diff")}
+		for i := 1; i <= L; i++ {
+			space = append(space, engine.D(fmt.Sprintf("op%d", i), ops...))
 		}
-		return seq
-	}
-	c.RunE1(engine.E1{Part: "sequences", Space: space, K: len(space),
-		Skip: func(v engine.Vec) bool { // canonical form: the '-' entries trail
-			for i := 1; i+1 < len(v); i++ {
-				if v[i] == 0 && v[i+1] != 0 {
+		seqOf := func(v engine.Vec) []string {
+			seq := make([]string, 0, L)
+			for i := 1; i < len(v); i++ {
+				seq = append(seq, ops[v[i]])
+			}
+			return seq
+		}
+		c.RunE1(engine.E1{Part: fmt.Sprintf("sequences-len%d", L), Space: space, K: len(space),
+			Skip: func(v engine.Vec) bool {
+				if L < 2 {
+					return false
+				}
+				seq := seqOf(v)
+				vmu.Lock()
+				defer vmu.Unlock()
+				if violated[key(space[0].Vals[v[0]], seq[:L-1])] {
+					violated[key(space[0].Vals[v[0]], seq)] = true // its extensions are pruned as well
+					pruned++
 					return true
 				}
-			}
-			return false
-		},
-		NewWorker: func(int) func(engine.Vec) engine.Result {
-			ev := evaluator(c)
-			return func(v engine.Vec) engine.Result {
-				r := ev(request{Oracle: space[0].Vals[v[0]], Seq: seqOf(v)})
-				return engine.Result{Rule: r.Rule, Outcome: r.Outcome, Sig: r.Sig, Detail: r.Detail}
-			}
-		}})
+				return false
+			},
+			NewWorker: func(int) func(engine.Vec) engine.Result {
+				ev := evaluator(c)
+				return func(v engine.Vec) engine.Result {
+					oracle, seq := space[0].Vals[v[0]], seqOf(v)
+					r := ev(request{Oracle: oracle, Seq: seq})
+					if r.Sig != "" {
+						vmu.Lock()
+						violated[key(oracle, seq)] = true
+						vmu.Unlock()
+					}
+					return engine.Result{Rule: r.Rule, Outcome: r.Outcome, Sig: r.Sig, Detail: r.Detail}
+				}
+			}})
+	}
+	c.Extra("pruned_extensions_of_violating_prefix", pruned)
 
 	if c.ReplayFile == "" {
-		if r := evaluator(c)(request{Oracle: "info"}); r.Info != nil {
-			r.Info["worker_children_replaced_after_failed_restore"] = restoreFailures.n
-			r.Info["operations"] = names[1:]
-			c.Extra("c20_info", r.Info)
-		}
+		c.Extra("c20_info", collectInfo(names[1:]))
 		if restoreFailures.n > 0 {
 			c.Extra("restore_failure_sample", restoreFailures.last)
 		}
@@ -746,13 +801,33 @@ func racePass(c *engine.Check) {
 		}
 		env = append(env, "C20_RACE_PAIR="+desc["pair"])
 	}
-	run := exec.Command(bin, "-test.run", "^TestRace$", "-test.count", "1", "-test.timeout", "0")
-	run.Env = env
-	out, err := run.CombinedOutput()
-	s := string(out)
+	const shards = 4
+	outs := make([]string, shards)
+	errs := make([]error, shards)
+	var wg sync.WaitGroup
+	for i := 0; i < shards; i++ {
+		wg.Add(1)
+		go func(i int) {
+			defer wg.Done()
+			run := exec.Command(bin, "-test.run", "^TestRace$", "-test.count", "1", "-test.timeout", "0")
+			run.Env = append(append([]string{}, env...), fmt.Sprintf("C20_RACE_SHARD=%d/%d", i, shards))
+			out, err := run.CombinedOutput()
+			outs[i], errs[i] = string(out), err
+		}(i)
+	}
+	wg.Wait()
+	s := strings.Join(outs, "\n")
+	var err error
+	for _, e := range errs {
+		if e != nil {
+			err = e
+		}
+	}
 	pairs := 0
-	if m := regexp.MustCompile(`C20RACE pairs=(\d+)`).FindStringSubmatch(s); m != nil {
-		fmt.Sscan(m[1], &pairs)
+	for _, m := range regexp.MustCompile(`C20RACE pairs=(\d+)`).FindAllStringSubmatch(s, -1) {
+		var n int
+		fmt.Sscan(m[1], &n)
+		pairs += n
 	}
 	reports := strings.Split(s, "WARNING: DATA RACE")
 	bySite := map[string]string{}
